@@ -150,9 +150,24 @@ NEEDS = {
              "single-file path cut into several batches, and an invalid SMILES in a batch other than the first",
     "C18-d": "get_assignments writes a slice first..last when last - first == n - 1: needs a cluster whose member "
              "list is not increasing (after refine / recluster) and meets that coincidence without being a range",
+    "C03-d": "refinement from a SEQUENCE of files reads the split members in sorted index order but no longer "
+             "re-orders their labels: needs refine_inplace([paths]) on a largest cluster whose member list is not "
+             "increasing (after recluster / an earlier refine) and that does not re-form identically",
+    "C04-d": "lru_cache on get_merge_accept_fn: estimators built with the same (criterion, tolerance) share one "
+             "merge object, which the tolerance setter mutates in place: needs ANOTHER estimator with the same "
+             "tolerance criterion re-tuned in the same process, then a repeated run",
+    "C06-d": "_InitialRound reuses one tree per worker (reset + set_merge keeps the tolerance of the 'full' "
+             "refinement): needs a tolerance criterion, tolerance != 0.05, refinement_before_midsection='full' and "
+             "two files handled by the same callable (serial, or files > 4 x processes)",
+    "C09-d": "_get_leaf_bfs sorts on (dtype_name, n_samples): 'uint8' > 'uint16' as strings, so clusters of <= 255 "
+             "members sort before those of >= 256: needs a cluster of 256+ members next to a smaller one",
+    "C11-d": "jt_isim_packed short-cuts pairs through the Tanimoto kernel, whose 0/0 is 0: needs exactly two packed "
+             "uint8 fingerprints, both empty (iSIM must be 1)",
+    "C15-d": "`bb run --save-tree` pickles the tree before refinement / re-clustering: needs --save-tree together "
+             "with refine or recluster rounds, and the pickle to be compared with the API's tree",
 }
 EXTRA = {"C17-a": ["C10"], "C12-a": ["C07"], "C02-a": ["C12"], "C14-b": ["C05"], "C03-b": ["C07"], "C07-b": ["C03"],
-         "C05-c": ["C09"], "C02-c": ["C08"]}
+         "C05-c": ["C09"], "C02-c": ["C08"], "C09-d": ["C18"]}
 
 
 def sh(cmd, **kw):
